@@ -193,6 +193,12 @@ func c09r3(r *R) {
 	})
 	if o.Check(goH1 != nil, "cannot find the `go` statement starting the HTTP/1.1 server next to the handler wrapper") {
 		o.Check(instrDominates(compStore, goH1), "the Request.TLS wrapper is installed after the HTTP/1.1 server goroutine is started")
+		// the HTTP/1.1 server is started when there is none yet (first Serve), on nothing else
+		for _, alt := range c.pathAlts(goH1.Block()) {
+			for _, l := range alt {
+				o.AtI(goH1).Check(relHolds([]string{l}, "p0.http1ConnChannelListener", "==", "nil"), "the HTTP/1.1 server goroutine is started only under %s (conditions %v): want `no hand-off listener exists yet`", l, alt)
+			}
+		}
 	}
 	o.Check(c.Expr(compStore.Val) == funcName(comp)+"(p0.HTTPServer.Handler)", "wrapper wraps %s, want the server's own handler", c.Expr(compStore.Val))
 	// the wrapper: returns a handler func that sets r.TLS when nil and always delegates
